@@ -200,8 +200,9 @@ CHECKS = {
           "times (over the regenerated loop facts). Adversarial scripted sites (endless chains, loops, endless nested JSON) are pushed "
           "through the real stages until the seed finishes; each fetch, node and outlink is judged by an independent oracle and each "
           "step is replayed on the model.",
-  "note": COMMON_NOTE + "Termination of a whole seed (pass count) and the depth limit as a tree invariant are checked on the implementation, "
-          "not proved (the theorems bound every single decision). The retry loop itself runs only in the end-to-end scenarios.",
+  "note": COMMON_NOTE + "The depth limit is proved as an invariant of whole trees for postprocess and archive (every subtree with pending work is "
+          "within three levels); preprocess and completion marking are covered by the stage-level runs. Termination of a whole seed (pass "
+          "count) is checked on the implementation, not proved.",
  },
 }
 
